@@ -21,6 +21,7 @@
      Abort         sendBatchRequest's select: ctx.Done / timer / batchConn.closed -> canceled := 1
      Return        sendBatchRequest's select: value or close observed on entry.res
      Close         batchConn.Close / client closed
+     RecvPanic / FailPanic / CloseFail   see the comments at the steps
      Restart       batchSendLoop recovered a panic and restarted itself: the batchConn keeps its
                    reqBuilder (idAlloc and the entries already fetched), nothing else changes      *)
 From Coq Require Import List Arith Bool.
@@ -70,7 +71,11 @@ Inductive label :=
 | Abort (c : caller) (k : errk)
 | Return (c : caller)
 | Close
-| Restart.
+| Restart
+| RecvPanic (h : host)
+| FailPanic (h : host)
+| CloseFail (c : caller)
+| QueueFail (c : caller).
 
 Definition entry0 : entry := mkEntry 0 Fresh [] false None.
 
@@ -230,6 +235,44 @@ Definition step (s : state) (l : label) : option state :=
   | Close =>
       Some (mkState (next_id s) (tab s) (ent s) (loops s) (epoch s) true (outdated s) (alloc s))
   | Restart => Some s
+  | RecvPanic h =>
+      (* batchRecvLoop panicked (idle, or between Load and deliver -- e.g. a response batch with more ids than
+         responses); its deferred recover restarts it on the same stream; the new loop copies the current epoch.
+         Nothing is completed and nothing leaves the table. *)
+      match loops s h with
+      | LIdle _ | LLoaded _ _ _ _ =>
+          Some (mkState (next_id s) (tab s) (ent s) (updl (loops s) h (LIdle (epoch s))) (epoch s) (closed s) (outdated s) (alloc s))
+      | _ => None
+      end
+  | FailPanic h =>
+      (* panic at the start of failPendingRequests (failpoint panicInFailPendingRequests) inside
+         recreateStreamingClient: the epoch CAS has been decided, nothing was failed, the lock is released by the
+         deferred unlock, the loop restarts on the still broken stream *)
+      match loops s h with
+      | LIdle ep =>
+          if closed s then None
+          else let e' := if Nat.eqb ep (epoch s) then S (epoch s) else epoch s in
+               Some (mkState (next_id s) (tab s) (ent s) (updl (loops s) h (LIdle e')) e' (closed s) (outdated s) (alloc s))
+      | _ => None
+      end
+  | CloseFail c =>
+      (* failAsyncRequestsOnClose: a recv loop that exits because the client is closed fails an (async) entry *)
+      match e_st (ent s c) with
+      | Stored i =>
+          if closed s && negb (loaded_on (loops s (e_host (ent s c))) i)
+          then Some (mkState (next_id s) (remove_id i (tab s)) (upd (ent s) c (complete (ent s c) (Err EClosed)))
+                             (loops s) (epoch s) (closed s) (outdated s) (alloc s))
+          else None
+      | _ => None
+      end
+  | QueueFail c =>
+      (* fix 000f10e: an entry that is still queued when the client is closed is failed with "batchConn closed" (by the
+         async sender's re-check of batchConn.closed after enqueueing, or by failQueuedAsyncRequestsOnClose when
+         batchSendLoop returns) *)
+      match e_st (ent s c) with
+      | Queued => if closed s then Some (with_ent s (upd (ent s) c (complete (ent s c) (Err EClosed)))) else None
+      | _ => None
+      end
   end.
 
 (* regression witness only: the CAS-losing branch as it was BEFORE fix a827fda (stream re-created, epoch copy
